@@ -22,11 +22,13 @@ inductive WVal
 
 abbrev Field := Nat × WVal
 
-def encVarint (n : Nat) : Bytes :=
-  if h : n < 128 then [n.toUInt8]
-  else (n % 128 + 128).toUInt8 :: encVarint (n / 128)
-termination_by n
-decreasing_by omega
+/-- base-128 little-endian groups, at most `fuel + 1` bytes (structural, so the kernel can evaluate it) -/
+def encVarintF : Nat → Nat → Bytes
+  | 0, n => [n.toUInt8]
+  | f+1, n => if n < 128 then [n.toUInt8] else (n % 128 + 128).toUInt8 :: encVarintF f (n / 128)
+
+/-- `protowire.AppendVarint` for a `uint64`: at most 10 bytes. -/
+def encVarint (n : Nat) : Bytes := encVarintF 9 n
 
 /-- `protowire.ConsumeVarint`: at most 10 bytes, the 10th must be 0 or 1. `fuel` = bytes still allowed. -/
 def decVarintAux : Nat → Bytes → Option (Nat × Bytes)
